@@ -1,4 +1,5 @@
 import TwistedProps.C54.Session
+import TwistedProps.C54.Gen
 import TwistedProps.C26
 /-!
 C54 — the FTP server never touches paths outside its root.
@@ -17,6 +18,8 @@ top of the `posixpath`/`FilePath` model of C26 (`TwistedModel/Fs/Path.lean`).
   the environment of a step (data connection state, login verdict, `shell.access` verdict,
   `_isGlobbingExpression` verdict, `os.listdir` result) is arbitrary too.  Sessions start in
   `State.init` (`connectionMade`).
+* `gen_*`: `toSegments` is regenerated from ftp.py on every run (`Generated.Ftp`, harness/py2lean.py: the
+  for-loop as a fold of the generated loop body) and proved equal to the model's (`TwistedProps/C54/Gen.lean`).
 -/
 namespace TwistedProps.C54
 open Twisted.Fs.Path Twisted.Fs.Ftp TwistedProps.C26
@@ -28,6 +31,26 @@ theorem toSegments_plain (cwd : List Seg) (path : Bytes) (sg : List Seg) (hcwd :
     (h : toSegments cwd path = some sg) :
     ∀ s ∈ sg, s ≠ [] ∧ s ≠ [dot] ∧ s ≠ [dot, dot] ∧ slash ∉ s ∧ (0 : UInt8) ∉ s :=
   toSegments_plainL cwd path sg hcwd h
+
+/-! ### the translator-regenerated `toSegments` (see `TwistedProps/C54/Gen.lean`) -/
+
+/-- generated loop body = model `segStep` -/
+theorem gen_segStep (segs : List Seg) (s : Seg) : Generated.Ftp.toSegmentsStep segs s = segStep segs s :=
+  gen_segStep_eq segs s
+
+/-- generated `toSegments` (ftp.py as it is on this run) = model `toSegments` -/
+theorem gen_toSegments (cwd : List Seg) (path : Bytes) :
+    Generated.Ftp.toSegments cwd path = toSegments cwd path := gen_toSegments_eq cwd path
+
+/-- `toSegments_plain` stated directly over the generated definition -/
+theorem gen_toSegments_plain (cwd : List Seg) (path : Bytes) (sg : List Seg) (hcwd : PlainL cwd)
+    (h : Generated.Ftp.toSegments cwd path = some sg) :
+    ∀ s ∈ sg, s ≠ [] ∧ s ≠ [dot] ∧ s ≠ [dot, dot] ∧ slash ∉ s ∧ (0 : UInt8) ∉ s :=
+  toSegments_plain cwd path sg hcwd (by rw [← gen_toSegments]; exact h)
+
+example : Generated.Ftp.toSegments [[97]] [98, 47, 46, 46, 47, 99] = some [[97], [99]]
+    ∧ Generated.Ftp.toSegments [[97]] [47, 46, 46] = none
+    ∧ Generated.Ftp.toSegments [[97]] [47, 98, 47, 47, 46, 47] = some [[98]] := by decide
 
 /-- **toSegments never climbs above the root**: whenever `toSegments` returns, every `..` piece of
     the path was applied to a non-empty segment stack (at the root it raises `InvalidPath` instead). -/
